@@ -235,6 +235,17 @@ def mul(*xs):
             inner = flat[0] if len(flat) == 1 else T('mul', tuple(flat), sort)
             return T('neg', (inner,), sort)
         out.append(const(c, sort) if sort == 'R' else const(int(c), 'I'))
+    # x*x -> x**2 (canonical form shared with Tensor.square())
+    if len(flat) > 1:
+        cnt = {}
+        order = []
+        for y in flat:
+            if y not in cnt:
+                cnt[y] = 0
+                order.append(y)
+            cnt[y] += 1
+        if any(n > 1 for n in cnt.values()):
+            flat = [y if cnt[y] == 1 else powt(y, const(cnt[y], 'I')) for y in order]
     out.extend(flat)
     if not out:
         return const(1, sort)
@@ -271,9 +282,10 @@ def powt(a, e):
                 return T('pow', (a, const(n, 'I')), a.sort)
             if -8 <= n < 0:
                 return div(ONE, T('pow', (toreal(a), const(-n, 'I')), 'R'))
+        # A1: the float literals 0.5 and 1/3 denote the reals 1/2 and 1/3
         if ev == Fraction(1, 2):
             return app('sqrt', toreal(a))
-        if ev == Fraction(1, 3):
+        if ev == Fraction(1, 3) or ev == Fraction(1 / 3):
             return app('cbrt', toreal(a))
     return T('pow', (toreal(a), toreal(e)), 'R')
 
